@@ -107,7 +107,7 @@ class PathSolver:
         r = s.check()
         return r, (s.model() if r == z3.sat else None), (s.reason_unknown() if r == z3.unknown else '')
     INC_THRESHOLD = 400
-    def try_incremental(self, extra):
+    def try_incremental(self, extra, need_model=True):
         """paths with thousands of uninterpreted-function axioms (restore: 100 derivations per batch): re-asserting all of
         them for every query costs ~1 s each, so keep one incremental solver for the path; it is only trusted for a short
         time limit (bit-vector arithmetic is slow in incremental mode) and abandoned after two timeouts"""
@@ -120,17 +120,17 @@ class PathSolver:
         self.inc.push()
         self.inc.add(extra)
         r = self.inc.check()
-        m = self.inc.model() if r == z3.sat else None
+        m = self.inc.model() if (r == z3.sat and need_model) else None
         self.inc.pop()
         if r == z3.unknown:
             self.inc_fail += 1; return None
         return r, (MultiModel([m]) if m is not None else None), ''
-    def check(self, extra=None):
+    def check(self, extra=None, need_model=True):
         """satisfiability of the path condition together with extra (sliced); returns (result, model, reason)"""
         if self.false: return z3.unsat, None, ''
         if extra is None:
             return z3.sat, None, ''       # the path condition is kept feasible by construction
-        r = self.try_incremental(extra)
+        r = self.try_incremental(extra, need_model)
         if r is not None: return r
         ss = symset(extra)
         uf = '@uf' in ss
